@@ -271,7 +271,7 @@ impl Property for C03 {
     }
     fn cases(&self, tier: Tier) -> usize {
         match tier {
-            Tier::Quick => 16_000,
+            Tier::Quick => 60_000,
             Tier::Thorough => 400_000,
         }
     }
